@@ -282,8 +282,10 @@ class Problem:
             >>> prob.subject_to(x >= 0)  # Adds 100 constraints
         """
         if isinstance(constraint, list):
-            for c in constraint:
-                self._constraints.append(self._validate_constraint(c))
+            # validate everything first: a rejected item must not leave the
+            # earlier ones added behind caches that were never invalidated
+            validated = [self._validate_constraint(c) for c in constraint]
+            self._constraints.extend(validated)
         else:
             self._constraints.append(self._validate_constraint(constraint))
         self._invalidate_caches()
